@@ -98,4 +98,10 @@ CHECKS["C16"] = {
     "text": "Both a general-mode and a dialog world with two input, two output and one retrieval rail; for every subset of {input, dialog, retrieval, output} and every effective verdict vector: exactly the selected categories invoke their rails, no LLM call unless dialog is selected, rails-only replies are the unchanged / rewritten user text, the supplied bot message / its rewritten form, or the refusal; log.activated_rails lists exactly the invoked input/output rails in order with `stop` on exactly the blocking rail.",
     "note": _E3_NOTE + " Supplied bot message uses role `assistant`.",
 }
+CHECKS["C03"] = {
+    "engine": "E3-world + fault injector", "level": "fault_enumeration",
+    "technique": "exhaustive fault enumeration: a fault (raise / return None) at every custom-action invocation index (singles and pairs) of every turn position, in every world, on a real LLMRails instance; follow-up turn checked fault-free",
+    "text": "Worlds {v1 general, v1 dialog LLM path, v1 dialog custom-action path, v2 guardrails library} x rail exceptions on/off, each with an input rail, an output rail and (where applicable) a dialog action; 3-turn conversations, fault turn 1 or 2; generate returns normally, reply is refusal / rail exception / the fixed internal-error message and never the LLM text of that turn when a rail action failed, and in the next turn the input rail runs first on the new message and the output rail on the new LLM text.",
+    "note": _E3_NOTE + " Faults only at action boundaries.",
+}
 NOT_APPLICABLE = {}
